@@ -69,6 +69,10 @@ pub struct Case {
     /// `generate` writes through it, the lockfile is named after the link
     #[serde(default)]
     pub symlinked_config: bool,
+    /// after `generate` the whole repository directory is renamed (a checkout moved or cloned
+    /// elsewhere): the three files stay byte-identical
+    #[serde(default)]
+    pub relocate: bool,
 }
 
 /// What the source file holds. `config generate` only reads the configuration from stdin; the
@@ -128,8 +132,8 @@ pub fn strategy() -> impl Strategy<Value = Case> {
         }
         c
     });
-    (prop_oneof![1 => small, 2 => big], vec(tamper(), 4..10), 0u8..=1, proptest::bool::weighted(0.3), proptest::bool::weighted(0.25), proptest::bool::weighted(0.25))
-        .prop_map(|(config, tampers, source_kind, dotted_name, outer_cwd, symlinked_config)| Case { config, tampers, source_kind, dotted_name, outer_cwd, symlinked_config })
+    (prop_oneof![1 => small, 2 => big], vec(tamper(), 4..10), 0u8..=1, proptest::bool::weighted(0.3), proptest::bool::weighted(0.25), proptest::bool::weighted(0.25), proptest::bool::weighted(0.25))
+        .prop_map(|(config, tampers, source_kind, dotted_name, outer_cwd, symlinked_config, relocate)| Case { config, tampers, source_kind, dotted_name, outer_cwd, symlinked_config, relocate: relocate && !outer_cwd })
 }
 
 fn apply(orig: &[u8], t: &Tamper) -> Option<Vec<u8>> {
@@ -284,6 +288,13 @@ pub fn check(case: &Case, w: usize) -> CheckResult {
     if !g.ok() {
         return viol_obs("c17.generate.failed", "config generate rejected a valid source configuration".into(), g.brief());
     }
+    if case.relocate {
+        let moved = env.case_dir.join("moved-checkout");
+        std::fs::rename(&env.repo, &moved).map_err(|e| Inconclusive(e.to_string()))?;
+        env.repo = moved;
+        // (the helper finds its behaviour by the path of the command file: register the new paths)
+        bb::install_simple(&env, &cfg, &some);
+    }
     let gen_path = env.config_path();
     let lock_path = env.path(lock_name);
     let (Ok(gen_bytes), Ok(lock_bytes)) = (std::fs::read(&gen_path), std::fs::read(&lock_path)) else {
@@ -435,6 +446,7 @@ pub fn check(case: &Case, w: usize) -> CheckResult {
             .class_if(t.keep_mtime, "mtime-preserved")
             .class_if(case.outer_cwd, "invoked-from-the-directory-above-the-repository")
             .class_if(case.symlinked_config, "configuration-file-is-a-symbolic-link")
+            .class_if(case.relocate, "repository-moved-after-generate")
             .class(if off < 8192 { "offset<8192" } else if off < 16384 { "offset<16384" } else { "offset>=16384" });
     }
     // generating again from the same source repairs a damaged generated file: afterwards the three
@@ -506,6 +518,7 @@ pub fn exhaustive_cases() -> Vec<Case> {
             dotted_name: false,
             outer_cwd: false,
             symlinked_config: false,
+            relocate: false,
         })
         .collect()
 }
